@@ -49,6 +49,15 @@ CHECKS = {
  "C17": ("exploration", "static bytecode verifier + VM trace monitor (sp vs static height, shadow-slot ownership) + symbol-table history model + 16-bit limit programs",
          "Every emitted bytecode program (random subset programs, 6-deep loop nests with breaks and block locals, 10^4-iteration loops, programs around every 16-bit limit) is decoded and abstractly interpreted, then executed under the trace hook; random Push/Pop/Define/Resolve histories are checked against a scope-stack model.",
          "Closed-form; ErrStackOverflow of the 2048-slot VM stack is a graceful error, not a crash.", "DESIGN.md §7 C17"),
+ "C18": ("fault_enumeration", "strace -f kill-point and errno injection enumeration on the real evy binary; closed-form oracle over file bytes, mode, exit status, directory",
+         "The real evy fmt -w runs on ten file shapes under strace: one run per (syscall kind, occurrence) kill point and per (file syscall, occurrence, errno) fault; after each run the file must hold its complete original or complete formatted text with unchanged mode, exit 0 implies formatted, unparsable input stays untouched with non-zero exit; evy fmt -c verdicts on every shape.",
+         "Injections that did not fire (no INJECTED marker/kill in the strace log) are counted separately; short writes cannot be simulated faithfully with strace and are not enumerated; power-loss durability is not claimed.", "DESIGN.md §7 C18"),
+ "C19": ("exploration", "reference pen model vs flattened SVG (strict XML parse, group nesting and inherited presentation attributes resolved to leaf shapes); library and real binary",
+         "Random graphics call sequences with degenerate arguments are drawn through the cli SVG platform and (sampled) evy run --svg-out; the document must parse strictly and its flattened leaf shapes must equal the pen model's records in number, order, kind, geometry and effective style.",
+         "Text fill may be pen fill or stroke; empty-string colours, NaN/Inf geometry, baseline mapping and ellipse angles are not judged; D18 and D19b are open findings frozen by golden files.", "DESIGN.md §7 C19"),
+ "C20": ("exploration", "closed-form monitors: exhaustive tampering of sealed envelopes (round trip, every byte, truncations, base64 edits, foreign keys) and the exhaustive question grid for Verify",
+         "Every sealed value of 20 text classes under 4 fresh key pairs is tampered at every byte position, truncated, spliced and decrypted with foreign keys: the result must be an error or the original text; Verify is run on every (choices 2..5, output assignment, marking, answer type) cell with choices as inline code, text blocks and executed evy blocks.",
+         "Trusts Go crypto; key pairs are generated per worker.", "DESIGN.md §7 C20"),
  "C06": ("exploration", "metamorphic round-trip monitor: tokens, re-acceptance, tree and recorded behaviour of Format(s) vs s; evy fmt vs library",
          "For thousands of accepted sources (corpus, decorated with comments/blank lines/tabs, accepted token mutants, generated programs) compares the non-whitespace token sequence, the syntax tree and the recorded Platform trace of the formatted text with those of the source, and the real evy fmt with Program.Format.",
          "Tokens compared by (type,value); behaviour compared under fixed inputs/seed with positions stripped; lexer positions trusted only as far as C03 checks them.", "DESIGN.md §7 C06"),
